@@ -165,7 +165,7 @@ def _shard(ctx, shard, nshards):
         def test():
             run_state_machine_as_test(
                 hypothesis.seed(runner.hseed(ctx, 18))(Machine),
-                settings=runner.hsettings(ctx.scale(150, 600), stateful_step_count=12))
+                settings=runner.hsettings(ctx.scale(150, 2000), stateful_step_count=12))
         return test
     ctx.hypothesis(factory)
 
